@@ -44,8 +44,9 @@ class DuplicateKernel(Transformation):
 
     def __init__(self, duplicate_kernels=None, duplicate_suffix='duplicated',
                  duplicate_module_suffix=None, duplicate_subgraph=False):
-        self.suffix = duplicate_suffix
-        self.module_suffix = duplicate_module_suffix or duplicate_suffix
+        # Item names are case-insensitive (lower case): fold the name-valued options like the kernel names
+        self.suffix = duplicate_suffix.lower()
+        self.module_suffix = (duplicate_module_suffix or duplicate_suffix).lower()
         self.duplicate_kernels = tuple(kernel.lower() for kernel in as_tuple(duplicate_kernels))
         self.duplicate_subgraph = duplicate_subgraph
 
